@@ -35,7 +35,10 @@ Cons == [ c0 |-> [keys |-> {}, vars |-> {}, refs |-> {}], c1 |-> [keys |-> {"A"}
           c2 |-> [keys |-> {"B"}, vars |-> {}, refs |-> {}], c3 |-> [keys |-> {"A"}, vars |-> {"C"}, refs |-> {}],
           \* constraints that name an undefined utility: inside nthChild.ofRule, directly
           c4 |-> [keys |-> {"A"}, vars |-> {}, refs |-> {R("U9", "nthof")}],
-          c5 |-> [keys |-> {"A"}, vars |-> {}, refs |-> {R("U9", "same")}] ]
+          c5 |-> [keys |-> {"A"}, vars |-> {}, refs |-> {R("U9", "same")}],
+          \* two constraints that each capture a new variable (the second constrains what the first captured): a fix
+          \* may use the captures of both
+          c6 |-> [keys |-> {"A", "C"}, vars |-> {"C", "D"}, refs |-> {}] ]
 T(src, rw) == [src |-> src, rewriters |-> rw]
 Trans == [ t0 |-> <<>>,
            t1 |-> [x \in {"X"} |-> T("A", {})],
@@ -51,7 +54,8 @@ Trans == [ t0 |-> <<>>,
 Fixes == [ f0 |-> [vars |-> {}, form |-> "string"], f1 |-> [vars |-> {"A"}, form |-> "string"],
            f2 |-> [vars |-> {"X"}, form |-> "string"], f3 |-> [vars |-> {"Z"}, form |-> "string"],
            f4 |-> [vars |-> {"X"}, form |-> "object"], f5 |-> [vars |-> {"A"}, form |-> "object"],
-           f6 |-> [vars |-> {"C"}, form |-> "string"] ]
+           f6 |-> [vars |-> {"C"}, form |-> "string"],
+           f7 |-> [vars |-> {"C", "D"}, form |-> "string"] ]
 \* r3: the rewriter's fix uses a variable captured by the enclosing rule (it sees the enclosing environment)
 Rews == [ r0 |-> <<>>, r1 |-> [x \in {"R1"} |-> [hasFix |-> TRUE, refs |-> {}]], r2 |-> [x \in {"R1"} |-> [hasFix |-> FALSE, refs |-> {}]],
           r3 |-> [x \in {"R1"} |-> [hasFix |-> TRUE, refs |-> {}]],
@@ -68,10 +72,10 @@ VARIABLES m, u, c, t, f, r
 vars == <<m, u, c, t, f, r>>
 \* the variants added for references inside nthChild.ofRule / in constraints / in rewriters are combined with a
 \* reduced set of the other parts; all earlier variants are combined with each other in full
-ExtM == {"m6", "m7"}  ExtU == {"u13"}  ExtC == {"c4", "c5"}  ExtR == {"r4", "r5", "r6", "r7", "r8"}
-Small == [m |-> {"m1", "m2"}, u |-> {"u0", "u1", "u2"}, c |-> {"c0", "c1"}, t |-> {"t0", "t1", "t7"}, f |-> {"f0", "f1", "f2"}, r |-> {"r0", "r1"}]
+ExtM == {"m6", "m7"}  ExtU == {"u13"}  ExtC == {"c4", "c5", "c6"}  ExtR == {"r4", "r5", "r6", "r7", "r8"}
+Small == [m |-> {"m1", "m2"}, u |-> {"u0", "u1", "u2"}, c |-> {"c0", "c1"}, t |-> {"t0", "t1", "t7"}, f |-> {"f0", "f1", "f2", "f7"}, r |-> {"r0", "r1"}]
 Init == \/ /\ m \in DOMAIN Mains \ ExtM /\ u \in DOMAIN Utils \ ExtU /\ c \in DOMAIN Cons \ ExtC
-           /\ t \in DOMAIN Trans /\ f \in DOMAIN Fixes /\ r \in DOMAIN Rews \ ExtR
+           /\ t \in DOMAIN Trans /\ f \in DOMAIN Fixes \ {"f7"} /\ r \in DOMAIN Rews \ ExtR
         \/ /\ m \in Small.m \cup ExtM /\ u \in Small.u \cup ExtU /\ c \in Small.c \cup ExtC
            /\ t \in Small.t /\ f \in Small.f /\ r \in Small.r \cup ExtR
            /\ (m \in ExtM \/ u \in ExtU \/ c \in ExtC \/ r \in ExtR)
